@@ -2769,7 +2769,7 @@ def c20(tier):
     path = os.path.join(common.rundir(), "MC_C20.cfg")
     with open(path, "w") as f:
         f.write("CONSTANTS\n  Clients = {c1, c2, c3}\n  MaxReq = %d\nSPECIFICATION Spec\nPROPERTY AllAnswered\n"
-                "INVARIANTS TypeOK ResponseIsFunctionOfRequest ResponsesAllowed ServerAlive BusyCounts\nCHECK_DEADLOCK FALSE\n" % (1 if tier == "quick" else 2))
+                "INVARIANTS TypeOK ResponseIsFunctionOfRequest ResponsesAllowed ServerAlive BusyCounts NoThreadLost\nCHECK_DEADLOCK FALSE\n" % (1 if tier == "quick" else 2))
     run.model("Server", path, timeout=3000)
     _cli, srvbin = common.build_bins()
     toml = open(os.path.join(common.REPO, "crates", "svgbob_server", "Cargo.toml")).read()
